@@ -17,7 +17,9 @@ C2A_KEY = bytes(range(32))
 A2C_KEY = bytes(range(32, 64))
 
 # verify outcomes -> code byte carried in TLV type 1 of the M2 reply
-VERIFY_CODES = {"ok": 0, "wrongid": 1, "badtag": 2, "badsig": 3, "auth": 4, "invalid": 5, "garbage": 6}
+VERIFY_CODES = {"ok": 0, "wrongid": 1, "badtag": 2, "badsig": 3, "auth": 4, "invalid": 5, "garbage": 6,
+                # answered like "ok"; what the accessory does to the session afterwards is up to the endpoint's handler
+                "okfin": 0, "okrst": 0}
 
 
 def install_fake_verify():
@@ -73,7 +75,7 @@ def event_message(body: bytes) -> bytes:
 class SimEndpoint:
     """Accessory side of ONE connection.
 
-    verify: one of VERIF_CODES keys, or "peerclose" (FIN when the POST arrives), "peerreset",
+    verify: one of VERIF_CODES keys ("okfin"/"okrst" answer like "ok"; the handler drops the session later), or "peerclose" (FIN when the POST arrives), "peerreset",
             "http4xx" (HTTP 470 reply), "silent" (never answers).
     vdelay: (optional attribute, default 0 = answer in the callback that delivered the request) number of
             virtual ticks the accessory takes before its decisive pair-verify reaction (reply, FIN or RST);
@@ -174,7 +176,7 @@ class SimEndpoint:
                                             reason="Connection Authorization Required"))
         else:
             tlv = b"\x06\x01\x02\x01\x01" + bytes([VERIFY_CODES[v]])
-            if v == "ok":
+            if VERIFY_CODES[v] == 0:
                 self.secure = True
             self.tr.peer_send(http_response(200, tlv, "application/pairing+tlv8"))
 
